@@ -188,4 +188,75 @@ theorem family_index_const_on_family (c : Calc) {t t' : Int} (h : 0 ≤ t)
     have sm := same_month (z := t / 86400000) (z' := t' / 86400000) (by omega) (by omega)
     simp only [calcFamily, civilOfMs_nonneg h, civilOfMs_nonneg h', sm.2]
 
+/-! ### distinct families hold distinct objects (the code's shape: both levels `atomic`) -/
+
+/-- object ids in the map are below the allocation counter and no two keys share an object -/
+def MapFresh (m : List (GKey × Nat)) (next : Nat) : Prop :=
+  (∀ k o, gLookup k m = some o → o < next) ∧
+  (∀ k1 k2 o, gLookup k1 m = some o → gLookup k2 m = some o → k1 = k2)
+
+theorem MapFresh.store {m : List (GKey × Nat)} {next : Nat} (k : GKey) (h : MapFresh m next) :
+    MapFresh (gStore k next m) (next + 1) := by
+  refine ⟨fun k' o e => ?_, fun k1 k2 o e1 e2 => ?_⟩
+  · rw [gLookup_store] at e
+    by_cases hk : k' = k
+    · simp only [hk, if_true, Option.some.injEq] at e; omega
+    · simp only [hk, if_false] at e; have := h.1 k' o e; omega
+  · rw [gLookup_store] at e1 e2
+    by_cases h1 : k1 = k <;> by_cases h2 : k2 = k
+    · rw [h1, h2]
+    · simp only [h1, if_true, Option.some.injEq] at e1
+      simp only [h2, if_false] at e2
+      have := h.1 k2 o e2; omega
+    · simp only [h2, if_true, Option.some.injEq] at e2
+      simp only [h1, if_false] at e1
+      have := h.1 k1 o e1; omega
+    · simp only [h1, if_false] at e1
+      simp only [h2, if_false] at e2
+      exact h.2 k1 k2 o e1 e2
+
+def PcIdle (t : GThread) : Prop := t.pc = .look ∨ t.pc = .fin
+
+theorem finish_idle (t : GThread) (o : Nat) : PcIdle (t.finish o) := by
+  unfold GThread.finish PcIdle; cases t.segObj <;> simp
+
+theorem stepThread_fresh (sh : GShared) (t : GThread) (hp : PcIdle t) (h : MapFresh sh.map sh.next) :
+    MapFresh (stepThread .atomic .atomic sh t).1.map (stepThread .atomic .atomic sh t).1.next ∧
+    PcIdle (stepThread .atomic .atomic sh t).2 := by
+  unfold stepThread
+  rcases hp with hp | hp
+  · simp only [hp, ite_self, if_true]
+    cases hl : gLookup t.key sh.map with
+    | some o => exact ⟨h, finish_idle t o⟩
+    | none => exact ⟨h.store t.key, finish_idle t _⟩
+  · simp only [hp]; exact ⟨h, Or.inr hp⟩
+
+def GInvFresh (s : GState) : Prop := MapFresh s.map s.next ∧ ∀ t ∈ s.threads, PcIdle t
+
+theorem gInit_fresh (c : Calc) (ts : List Int) : GInvFresh (gInit c ts) := by
+  refine ⟨⟨fun k o e => ?_, fun k1 k2 o e _ => ?_⟩, fun t ht => ?_⟩
+  · simp [gInit, gLookup] at e
+  · simp [gInit, gLookup] at e
+  · simp only [gInit, List.mem_map] at ht
+    obtain ⟨x, _, rfl⟩ := ht
+    exact Or.inl rfl
+
+theorem stepAt_fresh (s : GState) (i : Nat) (h : GInvFresh s) : GInvFresh (stepAt .atomic .atomic s i) := by
+  unfold stepAt
+  cases hi : s.threads[i]? with
+  | none => exact h
+  | some t =>
+    have ht : t ∈ s.threads := List.mem_of_getElem? hi
+    obtain ⟨a, b⟩ := stepThread_fresh ⟨s.map, s.next, s.opened⟩ t (h.2 t ht) h.1
+    refine ⟨a, fun t' ht' => ?_⟩
+    rcases List.mem_or_eq_of_mem_set ht' with g | g
+    · exact h.2 t' g
+    · subst g; exact b
+
+theorem gRun_fresh (sched : List Nat) (s : GState) (h : GInvFresh s) :
+    GInvFresh (gRun .atomic .atomic s sched) := by
+  induction sched generalizing s with
+  | nil => exact h
+  | cons i r ih => exact ih _ (stepAt_fresh s i h)
+
 end LinVerif.Lemmas.C13
